@@ -400,7 +400,7 @@ fn cases(ctx: &Ctx, shard: usize, n_shards: usize, n_random: u64) -> Vec<Exchang
 }
 
 pub fn run(ctx: &Ctx) -> Outcome {
-    let n_random = ctx.size(3_000, 200_000);
+    let n_random = ctx.size(20_000, 200_000);
     let n_shards = 64usize;
     // data chunks and in-progress replies sleep 30 / 100 ms each: use more workers than cores
     let report = run_sharded_on(ctx.threads * 3, n_shards, |shard, rep| {
